@@ -231,6 +231,62 @@ func runBool(ctx *bex.Ctx) {
 			}
 		}
 	}
+	// lets nested inside the VALUE of a let (possible through an if branch): the inner variables live on
+	// the stack while the outer value is computed, the outer variable only afterwards
+	{
+		leaves := en.Level(0)
+		r := func(n *gx.Node) string { return boolTable.Render(n, styles[0]) }
+		type nested struct {
+			text func(c, v1, v2, v3 *gx.Node) string
+			ref  func(c, v1, v2, v3 *gx.Node) *gx.Node
+		}
+		tmpls := []nested{
+			{func(c, v1, v2, v3 *gx.Node) string {
+				return "let x=if " + r(c) + " then let p=" + r(v1) + ";let q=" + r(v2) + ";p else " + r(v3) + ";"
+			}, func(c, v1, v2, v3 *gx.Node) *gx.Node { return &gx.Node{K: gx.If, A: c, B: v1, C: v3} }},
+			{func(c, v1, v2, v3 *gx.Node) string {
+				return "let x=if " + r(c) + " then " + r(v3) + " else let p=" + r(v1) + ";let q=" + r(v2) + ";q;"
+			}, func(c, v1, v2, v3 *gx.Node) *gx.Node { return &gx.Node{K: gx.If, A: c, B: v3, C: v2} }},
+			{func(c, v1, v2, v3 *gx.Node) string {
+				return "let x=if " + r(c) + " then let p=" + r(v1) + ";p&(" + r(v2) + ") else " + r(v3) + ";"
+			}, func(c, v1, v2, v3 *gx.Node) *gx.Node { return &gx.Node{K: gx.If, A: c, B: gx.B2("&", v1, v2), C: v3} }},
+			{func(c, v1, v2, v3 *gx.Node) string {
+				return "let w=" + r(v3) + ";let x=if " + r(c) + " then let p=" + r(v1) + ";let q=w^(" + r(v2) + ");p|q else w;"
+			}, func(c, v1, v2, v3 *gx.Node) *gx.Node {
+				return &gx.Node{K: gx.If, A: c, B: gx.B2("|", v1, gx.B2("^", v3, v2)), C: v3}
+			}},
+		}
+		for ti, tp := range tmpls {
+			for _, c := range leaves {
+				for _, v1 := range leaves {
+					for _, v2 := range leaves {
+						for _, v3 := range leaves {
+							maxBody := 1
+							if ctx.Quick() {
+								maxBody = 0
+							}
+							for lb := 0; lb <= maxBody && !ctx.Expired(); lb++ {
+								enX.Each(lb, func(body *gx.Node) bool {
+									idx++
+									if !ctx.Mine(idx) {
+										return true
+									}
+									if ctx.Expired() {
+										return false
+									}
+									for _, in := range kw {
+										checkBoolLet(ctx, in, tp.ref(c, v1, v2, v3), body, tp.text(c, v1, v2, v3), r(body))
+									}
+									return true
+								})
+							}
+						}
+					}
+				}
+			}
+			_ = ti
+		}
+	}
 	// if c then t else e as a leaf of a surrounding tree: c,t,e over levels 0..maxIf, then wrapped
 	ifLevel := func() []*gx.Node {
 		var l []*gx.Node
@@ -258,12 +314,20 @@ func runBool(ctx *bex.Ctx) {
 			}
 		}
 	}
-	ctx.SpaceDone("let x=v;body with v<=1, body<=" + strconv.Itoa(maxIf+1) + " operator nodes; if-forms with c,e<=" + strconv.Itoa(maxIf) + " nodes in 5 surrounding contexts")
+	ctx.SpaceDone("let x=v;body with v<=1, body<=" + strconv.Itoa(maxIf+1) + " operator nodes; 4 templates with lets nested inside the value of a let (through if branches) x 5^4 leaves x bodies of 0 (thorough: <= 1) operator nodes; if-forms with c,e<=" + strconv.Itoa(maxIf) + " nodes in 5 surrounding contexts")
 }
 
 func checkBoolLet(ctx *bex.Ctx, inst boolInst, v, body *gx.Node, prefix, src string) {
 	ctx.Eval()
-	f, _, err := inst.g.Generate(prefix+src, "a", "b", "c")
+	// the variable names are handed over as a slice of a longer array, as a host does that keeps one
+	// list of names: Generate must not write behind (or into) the names it was given
+	names := [6]string{"a", "b", "c", "\x00spare1", "\x00spare2", "\x00spare3"}
+	f, _, err := inst.g.Generate(prefix+src, names[:3]...)
+	if names != [6]string{"a", "b", "c", "\x00spare1", "\x00spare2", "\x00spare3"} {
+		ctx.Violate("Generate has modified the caller's list of variable names", map[string]any{"kind": "bool", "inst": inst.name, "src": prefix + src, "via": "names passed as a slice with spare capacity"},
+			"[a b c] and the spare capacity behind it unchanged", fmt.Sprintf("%q", names), "")
+		return
+	}
 	if err != nil {
 		ctx.Violate("valid expression rejected by Generate", map[string]any{"kind": "bool", "inst": inst.name, "src": prefix + src}, "a function", "error: "+err.Error(), "")
 		return
